@@ -97,18 +97,19 @@ def run_closure(case, drv):
     fmt = lambda s: sorted(("".join(VARS[i] for i in a), "".join(VARS[i] for i in b), "".join(VARS[i] for i in c)) for a, b, c in s)
     if got != exp:
         extra, missing = got - exp, exp - got
-        return fail(f"closure of {fmt({canon(*a) for a in case['assertions']})}: "
-                    f"implementation derives underivable {fmt(extra)}; misses derivable {fmt(missing)}", n=len(case["assertions"]))
+        return fail({"msg": f"closure of {fmt({canon(*a) for a in case['assertions']})}: "
+                            f"implementation derives underivable {fmt(extra)}; misses derivable {fmt(missing)}",
+                     "got": [[list(a), list(b), list(c)] for a, b, c in got]}, n=len(case["assertions"]))
     if "other" in case:
         other = mk_ind(case["other"])
         e_impl = bool(ind.entails(other))
         e_model = drv.call("sg_entails", s=case["assertions"], t=case["other"])
         if e_impl != e_model:
-            return fail(f"entails: impl {e_impl} model {e_model}")
+            return fail({"msg": f"entails: impl {e_impl} model {e_model}", "got": [[list(a), list(b), list(c)] for a, b, c in got]})
         q_impl = bool(ind.is_equivalent(other))
         q_model = e_model and drv.call("sg_entails", s=case["other"], t=case["assertions"])
         if q_impl != q_model:
-            return fail(f"is_equivalent: impl {q_impl} model {q_model}")
+            return fail({"msg": f"is_equivalent: impl {q_impl} model {q_model}", "got": [[list(a), list(b), list(c)] for a, b, c in got]})
     return ok(nontrivial=len(exp) > len({canon(*a) for a in case["assertions"]}), n=len(case["assertions"]), size=min(len(exp) // 5 * 5, 40))
 
 
